@@ -1,6 +1,7 @@
 package props
 
 import (
+	"time"
 	"strings"
 	"errors"
 	"fmt"
@@ -381,6 +382,34 @@ func runHistoryVia(kind string, t gwc.Target, units [][]byte, variant string) (m
 			}
 			l.SendPreamble()
 			r = sess.RunOn(l, units)
+		}
+	} else if variant == "in-again-after-end" && kind == "legacy" {
+		// the tunnel runs to its end; then the client presents the same connection id on a new RDG_IN_DATA and plays
+		// the history once more: an ended tunnel stays ended - nothing of that may be answered, relayed or connected
+		id := sess.NewConnID()
+		l, err := gwc.DialLegacy(t, id)
+		if err != nil {
+			r = sess.Result{Kind: kind, OpenStatus: -1, OpenErr: err.Error()}
+			var he *gwc.HTTPStatusError
+			if errors.As(err, &he) {
+				r.OpenStatus = he.Code
+			}
+		} else {
+			r = sess.RunOn(l, units)
+			if r.Ended {
+				if l2, err2 := gwc.OpenInOnly(t, id); l2 != nil {
+					if err2 == nil {
+						l2.Pipeline = true
+						for _, u := range units {
+							if l2.Send(u) != nil {
+								break
+							}
+						}
+						l2.WaitInClosed(500 * time.Millisecond)
+					}
+					l2.Close()
+				}
+			}
 		}
 	} else {
 		r = sess.Run(kind, t, units)
